@@ -79,6 +79,16 @@ def handleWorkdir (j : Json) : Except String Json := do
     ("justfile_directory", toJson (Workdir.justfileDirectory c)),
     ("source_directory", toJson (Workdir.sourceDirectory c))]
 
+def handleSearch (j : Json) : Except String Json := do
+  let ds : List Search.Level ← fromJson? (← j.getObjVal? "levels")
+  let explicit : Bool ← fromJson? (← j.getObjVal? "explicit")
+  if explicit then
+    match ds with
+    | d :: _ => return Json.mkObj [("outcome", toJson (Search.runExplicit d))]
+    | [] => throw "explicit needs one level"
+  else
+    return Json.mkObj [("outcome", toJson (Search.run ds))]
+
 def handle (line : String) : Json :=
   match Json.parse line with
   | .error e => Json.mkObj [("fatal", s!"parse: {e}")]
@@ -92,6 +102,7 @@ def handle (line : String) : Json :=
       | "args" => handleArgs j
       | "childenv" => handleChildEnv j
       | "workdir" => handleWorkdir j
+      | "search" => handleSearch j
       | "shsplit" => handleShSplit j
       | _ => throw s!"unknown op {op}"
     match r with
